@@ -8,7 +8,7 @@ from hypothesis.stateful import RuleBasedStateMachine, rule, initialize, invaria
 import hypothesis
 
 from vlib import model, herd, gen
-from vlib.harness import drive, quiet, hyp_settings, Violation
+from vlib.harness import drive, quiet, hyp_settings, Violation, collecting
 from vlib.ref import ref_options as RO
 
 PROPERTY = "C13"
@@ -446,10 +446,8 @@ def shard(ctx):
     rows = model.iso3_list()
     M = make_machine(ctx, rows)
     seed = (ctx.seed * 1000 + ctx.shard) * 7 + 3
-    try:
+    with collecting(ctx):
         run_state_machine_as_test(hypothesis.seed(seed)(M), settings=hyp_settings(6000 if thorough else 60, shrink=True, stateful_steps=40))
-    except Violation as v:
-        ctx.record_violation(ctx._last_violation or v)
 
     # documented values (dispatcher table + README), each on a drawn country and on the world
     docs = readme_values()
